@@ -13,12 +13,13 @@ const zeroTime = -1000 // "dl" value of a Set*Deadline call with the zero time
 
 type planOp struct {
 	Slot int    `json:"slot"`
-	Op   string `json:"op"` // conn: sd srd swd wsmall wbig drain close; http: req; ws: upgrade msg ping
+	Op   string `json:"op"` // conn: sd srd swd wsmall wvsmall wbig drain close; http: connect req; ws: connect upgrade msg ping; wscli: dial srvmsg srvping climsg; httpcli: do hang
 	Dl   int    `json:"dl,omitempty"`
 }
 
 type plan struct {
-	Part     string   `json:"part"` // conn | http | ws
+	Part     string   `json:"part"`                                   // conn | http | ws | wscli | httpcli
+	Dialed   bool     `json:"dialed_with_DialAsyncTimeout,omitempty"` // conn: the nbio side is the dialing side
 	ID       int      `json:"id"`
 	Seed     int64    `json:"seed"`
 	Template string   `json:"template,omitempty"`
@@ -26,11 +27,14 @@ type plan struct {
 	KA2      int      `json:"keepalive_halfslots,omitempty"`    // http keep-alive, in half slots
 	WT2      int      `json:"writetimeout_halfslots,omitempty"` // http write timeout, in half slots (0 = none)
 	WSKA2    int      `json:"ws_keepalive_halfslots,omitempty"` // websocket keep-alive, in half slots (0 = disabled)
+	DT2      int      `json:"dialtimeout_halfslots,omitempty"`  // wscli: Dialer.DialTimeout (0 = none)
+	T2       int      `json:"timeout_halfslots,omitempty"`      // httpcli: ClientConn.Timeout (0 = none)
+	I2       int      `json:"idletimeout_halfslots,omitempty"`  // httpcli: ClientConn.IdleConnTimeout (0 = none)
 	Ops      []planOp `json:"ops"`
 }
 
 func (p *plan) key() string {
-	s := fmt.Sprintf("%s/%v/%d/%d/%d", p.Part, p.NoRead, p.KA2, p.WT2, p.WSKA2)
+	s := fmt.Sprintf("%s/%v/%v/%d/%d/%d/%d/%d/%d", p.Part, p.NoRead, p.Dialed, p.KA2, p.WT2, p.WSKA2, p.DT2, p.T2, p.I2)
 	for _, o := range p.Ops {
 		s += fmt.Sprintf(";%d%s%d", o.Slot, o.Op, o.Dl)
 	}
@@ -56,13 +60,24 @@ func (p *plan) horizon2() int {
 			if 2*o.Slot+p.WT2 > h {
 				h = 2*o.Slot + p.WT2
 			}
-		case "upgrade", "msg", "ping":
+		case "upgrade", "msg", "ping", "srvmsg", "srvping":
 			if 2*o.Slot+p.WSKA2 > h {
 				h = 2*o.Slot + p.WSKA2
 			}
+		case "dial":
+			if 2*o.Slot+p.DT2 > h {
+				h = 2*o.Slot + p.DT2
+			}
+		case "do", "hang":
+			if 2*o.Slot+p.T2 > h {
+				h = 2*o.Slot + p.T2
+			}
+			if 2*o.Slot+p.I2 > h {
+				h = 2*o.Slot + p.I2
+			}
 		}
 	}
-	if p.Part != "conn" && p.KA2 > h {
+	if (p.Part == "http" || p.Part == "ws") && p.KA2 > h {
 		h = p.KA2
 	}
 	return h
@@ -155,7 +170,7 @@ func plannedClose2(ops []planOp, noRead bool) int {
 }
 
 func genConn(rnd *rand.Rand, id int, seed int64) *plan {
-	p := &plan{Part: "conn", ID: id, Seed: seed}
+	p := &plan{Part: "conn", ID: id, Seed: seed, Dialed: id%3 == 1}
 	if id < len(connTemplates) {
 		t := connTemplates[id]
 		p.Template, p.NoRead, p.Ops = t.name, t.noRead, append([]planOp{}, t.ops...)
@@ -274,6 +289,64 @@ func genWS(rnd *rand.Rand, id int, seed int64, ka2, wt2, wska2 int) *plan {
 			op = "ping"
 		}
 		p.Ops = append(p.Ops, planOp{Slot: last, Op: op})
+	}
+	return p
+}
+
+// websocket client: Dial at slot 0 (DialTimeout dt2 half slots, 0 = none), then the server sends messages / pings, the
+// client sends messages; client-side keep-alive wska2 half slots (0 = disabled).  Nothing is armed after the dial, so
+// the first event may come at any time - in particular after the dial timeout would have expired.
+func genWSCli(rnd *rand.Rand, id int, seed int64, dt2, wska2 int) *plan {
+	p := &plan{Part: "wscli", ID: id, Seed: seed, DT2: dt2, WSKA2: wska2}
+	p.Ops = append(p.Ops, planOp{Slot: 0, Op: "dial"})
+	n := rnd.Intn(4)
+	if id%4 == 0 {
+		n = 0 // silent from the dial on
+	}
+	last := 0
+	armed := false
+	for i := 0; i < n; i++ {
+		gap := 1 + rnd.Intn(4)
+		if armed && wska2 > 0 {
+			gap = 1 + rnd.Intn((wska2-1)/2)
+			if rnd.Intn(10) == 0 {
+				gap = (wska2+1)/2 + rnd.Intn(2)
+			}
+		}
+		last += gap
+		op := []string{"srvmsg", "srvmsg", "srvping", "climsg"}[rnd.Intn(4)]
+		if op != "climsg" {
+			armed = true
+		}
+		p.Ops = append(p.Ops, planOp{Slot: last, Op: op})
+	}
+	return p
+}
+
+// nbhttp.ClientConn: answered requests with idle periods in between, possibly a last request that is never answered
+func genHTTPCli(rnd *rand.Rand, id int, seed int64, t2, i2 int) *plan {
+	p := &plan{Part: "httpcli", ID: id, Seed: seed, T2: t2, I2: i2}
+	n := 1 + rnd.Intn(3)
+	last := 0
+	for i := 0; i < n; i++ {
+		if i > 0 {
+			gap := 1 + rnd.Intn(4)
+			if i2 > 0 {
+				gap = 1 + rnd.Intn((i2-1)/2)
+				if rnd.Intn(8) == 0 {
+					gap = (i2+1)/2 + rnd.Intn(2) // after the idle timeout: the connection is gone
+				}
+			}
+			last += gap
+		}
+		p.Ops = append(p.Ops, planOp{Slot: last, Op: "do"})
+	}
+	if rnd.Intn(3) == 0 {
+		gap := 1 + rnd.Intn(2)
+		if i2 > 0 && gap > (i2-1)/2 {
+			gap = (i2 - 1) / 2
+		}
+		p.Ops = append(p.Ops, planOp{Slot: last + gap, Op: "hang"})
 	}
 	return p
 }
